@@ -176,8 +176,14 @@ def _call(inp, grp, other, a, data_arr):
         kw['verbose'] = True
     if inp.get('main_attrs'):
         kw['main_dset_attrs'] = dict(inp['main_attrs'])
+    names_before = [[d.name for d in l] if isinstance(l, list) and all(hasattr(d, 'name') for d in l) else None
+                    for l in (pos_dims, spec_dims)]
     with quiet():
-        return call(write_main_dataset, grp, data, inp['name'], quantity, 'nA', pos_dims, spec_dims, **kw)
+        r = call(write_main_dataset, grp, data, inp['name'], quantity, 'nA', pos_dims, spec_dims, **kw)
+    names_after = [[d.name for d in l] if isinstance(l, list) and all(hasattr(d, 'name') for d in l) else None
+                   for l in (pos_dims, spec_dims)]
+    _ARGS_MUTATED[0] = names_before != names_after
+    return r
 
 
 def run_impl(inp, work):
@@ -209,6 +215,7 @@ def run_impl(inp, work):
                     ((k.startswith('Rpos_') and inp['reuse_pos'] == 'same') or (k.startswith('Rspec_') and inp['reuse_spec'] == 'same')):
                 before[k] = after[k]
         out['first'] = _result(inp, f, grp, r, before, after, data_arr)
+        out['first']['args_mutated'] = bool(_ARGS_MUTATED[0])
         if r[0] == 'err':
             # corrected retry in the same group: fix the arguments and move clashing objects out of the way
             clash = [p for p in inp['prior'] if p != 'unrelated']
@@ -334,6 +341,9 @@ def _check_ok(inp, res, what, fails):
 def oracle(inp, obs):
     fails = []
     first = obs['first']
+    if first.get('args_mutated'):
+        fails.append('arguments-mutated: the dimension lists handed to write_main_dataset are in another order after the call '
+                     '(a second dataset or a retry written with the same lists gets other coordinates)')
     if 'err' in first:
         if not _expect_error(inp):
             fails.append('accept-raises: a valid call raised %s' % first['cls'])
@@ -362,6 +372,9 @@ def nontrivial(inp, obs):
 def _norm_prefix(p):
     p = p if p.endswith('_') else p + '_'
     return p.replace('-', '_')
+
+
+_ARGS_MUTATED = [False]
 
 
 def _model_req(inp, err, members):
